@@ -47,6 +47,16 @@ omit [Zero α] in
 @[simp] theorem mkMat_length (n k : Nat) (f : Nat → Nat → α) : (mkMat n k f).length = n := by
   simp [mkMat]
 
+/-- `_split_vars`: rows of the first block -/
+theorem mget_take (m : Mat α) (r i j : Nat) (hi : i < r) : mget (m.take r) i j = mget m i j := by
+  unfold mget
+  simp only [List.getD_eq_getElem?_getD, List.getElem?_take_of_lt hi]
+
+/-- `_split_vars`: rows of the second block -/
+theorem mget_drop (m : Mat α) (r i j : Nat) : mget (m.drop r) i j = mget m (r + i) j := by
+  unfold mget
+  simp only [List.getD_eq_getElem?_getD, List.getElem?_drop]
+
 omit [Zero α] in
 theorem tab_congr {n : Nat} {f g : Nat → α} (h : ∀ i, i < n → f i = g i) : tab n f = tab n g := by
   unfold tab
